@@ -19,6 +19,7 @@ inductive Slot where
   | refreshGrant     -- `refresh_token` at the token endpoint (handler_key refresh_token)
   | introspect       -- `token` at introspection (any handler; access or refresh reported)
   | revoke           -- `token` at revocation (any handler)
+  | bearerAuth       -- bearer token as CLIENT AUTHENTICATION at the revocation endpoint (handler_key access_token)
   deriving DecidableEq, Repr
 
 structure Minted where
@@ -37,6 +38,7 @@ def slotAccepts : Slot → Cls → Bool
   | .revoke, .code => true
   | .revoke, .access => true
   | .revoke, .refresh => true
+  | .bearerAuth, .access => true
   | _, _ => false
 
 /-- what the handler layer yields for a string: the session id it names, or nothing -/
